@@ -81,6 +81,27 @@ impl Program {
     }
 }
 
+impl Program {
+    /// Is there a firewall that can reach itself through the static read
+    /// targets? (identification of the known finding KF-C06-1: a dependency
+    /// cycle that passes through a firewall)
+    pub fn static_cycle_through_firewall(&self) -> bool {
+        for f in self.of_kind(Kind::Fw) {
+            let mut seen = std::collections::HashSet::new();
+            let mut work = self.static_deps(f);
+            while let Some(m) = work.pop() {
+                if m == f {
+                    return true;
+                }
+                if seen.insert(m) {
+                    work.extend(self.static_deps(m));
+                }
+            }
+        }
+        false
+    }
+}
+
 fn collect_reads(e: &Expr, out: &mut Vec<u32>) {
     match e {
         Expr::Const(_) => {}
